@@ -199,6 +199,13 @@ def floordivStep (occupancy : Nat) (n : Int) : Int := ((occupancy : Int) + n - 1
 
 end
 
+/-- `Tensor._splitGeneric`: the rank ids of the result — the rank that is split (`rankid=` names it and
+    overrides `depth=`) is replaced by its two halves `id.1`, `id.0`, every other rank keeps its id -/
+def splitRankIds (ids : List String) (k : Nat) : List String :=
+  ids.take k ++ (match ids[k]? with
+    | some i => [i ++ ".1", i ++ ".0"]
+    | none => []) ++ ids.drop (k + 1)
+
 /-! ### the splits on fibers, and the descent to a depth -/
 
 inductive SplitOp
